@@ -424,6 +424,22 @@ pub fn is_exact(got: f64, exact: &Q) -> bool {
     got.is_finite() && &q(got) == exact
 }
 
+/// Error that gradual underflow may contribute when the raw terms are evaluated in f64: an intermediate product
+/// that falls into the subnormal range is rounded with an ABSOLUTE error of up to 2^-1075, which the remaining
+/// factors of the term then amplify. Bound: per term (deg + 1) * 2^-1074 * max(1, |c|) * prod max(1, |x_i|).
+pub fn underflow_allowance(terms: &[(Vec<u64>, f64)], mag: &dyn Fn(&u64) -> f64) -> f64 {
+    let tiny = f64::from_bits(1); // 2^-1074
+    let mut a = 0.0f64;
+    for (ids, c) in terms {
+        let mut amp = c.abs().max(1.0);
+        for id in ids {
+            amp *= mag(id).abs().max(1.0);
+        }
+        a += (ids.len() + 1) as f64 * tiny * amp;
+    }
+    a
+}
+
 /// Rounding tolerance for evaluating a message with `n_terms` raw terms of degree <= deg
 /// at a state: generous gamma_k times the sum of absolute term values.
 pub fn eval_tol(n_terms: usize, deg: usize, abs_sum: &Q) -> f64 {
